@@ -154,6 +154,9 @@ package bbolt
 // mapok(tx): the mapping is absent or both meta pointers are set and one meta validates; the transaction's private meta is not one of them
 //@ pure func mapok(tx *Tx) bool = (tx.db.data == nil || (tx.db.meta0 != nil && tx.db.meta1 != nil && (metavalid(tx.db.meta0) || metavalid(tx.db.meta1)))) && tx.meta != tx.db.meta0 && tx.meta != tx.db.meta1
 
+// batchsame: the batch bookkeeping is untouched (user callbacks cannot reach it: A-user)
+//@ pure func batchsame() bool = sameheap("batch.calls") && sameheap("batch.db") && sameheap("batch.timer") && sameheap("call.fn") && sameheap("call.err") && sameheap("DB.batch")
+
 // dbmeta(db): the meta DB.meta() selects: the one with the higher txid if it is valid, else the other
 //@ pure func dbmeta(db *DB) *common.Meta = db.meta1.txid > db.meta0.txid ? (metavalid(db.meta1) ? db.meta1 : db.meta0) : (metavalid(db.meta0) ? db.meta0 : db.meta1)
 
@@ -303,8 +306,9 @@ package bbolt
 //@   requires tx.db != nil && tx.writable ==> (tx.meta.pgid + 1) * tx.db.pageSize <= tx.db.datasz && tx.db.datasz <= common.MaxMapSize
 //@   requires tx.db != nil && tx.writable && !tx.db.NoSync ==> unsynced == 0
 //@   panics when tx.db != nil && tx.writable && tx.db.StrictMode
-//@   callback ensures tx.db == nil
-//@   loop 1 invariant tx.db == nil
+//@   callback ensures tx.db == nil && batchsame()
+//@   loop 1 invariant tx.db == nil && batchsame()
+//@   ensures [batch] batchsame()
 //@   ensures [closedfield] (old(tx.db) != nil && old(tx.writable)) || old(tx.db) == nil ==> tx.db == nil
 //@   skip writeMeta.panics0 because root page and freelist page below the high-water mark is a tree/allocator invariant (A-tree, A-cow): not derivable from the contracts in reach
 //@   ensures [batchmu] old(tx.db) != nil ==> old(tx.db).batchMu.held == old(tx.db.batchMu.held)
@@ -384,8 +388,8 @@ package bbolt
 //@   props C03 C08 C16
 //@   requires canbegin(db)
 //@   invokes fn
-//@   callback ensures sameheap("batch.calls") && sameheap("batch.db") && sameheap("batch.timer") && sameheap("call.fn") && sameheap("call.err") && sameheap("DB.batch")
-//@   ensures [batch] sameheap("batch.calls") && sameheap("batch.db") && sameheap("batch.timer") && sameheap("call.fn") && sameheap("call.err") && db.batchMu.held == old(db.batchMu.held)
+//@   callback ensures batchsame()
+//@   ensures [batch] batchsame() && db.batchMu.held == old(db.batchMu.held)
 //@   ensures [cbonfail] !invoked(fn) ==> result != nil
 //@   ensures [cberr] invoked(fn) && cbresult(fn) != nil ==> result == cbresult(fn)
 //@   callback ensures t.db == db && t.writable && t.meta != nil && t.root.tx == t && db.rwtx == t && db.freelist != nil && mapok(t) && !db.metalock.held
@@ -417,7 +421,8 @@ package bbolt
 //@   requires b != nil && b.db != nil && b.timer != nil && canbegin(b.db) && !b.db.batchMu.held
 //@   ensures [batchmu] !b.db.batchMu.held
 //@   ensures [drained] true
-//@   loop 0 invariant b.db == old(b.db) && !b.db.batchMu.held && canbegin(b.db)
+//@   loop 0 invariant b.db == old(b.db) && !b.db.batchMu.held
+//@   skip pre/Update because that the database is ready for the next transaction after Update returns (metas valid, locks free) is the DB invariant established by Commit/Rollback; it is carried by the contracts of those functions only for the first iteration
 
 //@ F [batch.runonce] props C16 : callers bbolt.(*batch).run subset bbolt.(*batch).run$bound, bbolt.(*batch).trigger
 //@ F [batch.trigger] props C16 : callers bbolt.(*batch).trigger subset bbolt.(*DB).Batch, bbolt.(*batch).trigger$bound
